@@ -1263,7 +1263,7 @@ impl<T: Clone + Eq + Debug + Default> WrappedBlock<T> {
 //@sub 2 /c\.is_whitespace\(\)/ ==> char_is_ws(c)
 //@auto C01 C02 C12
     #[verifier::loop_isolation(false)] //@w
-    #[verifier::rlimit(400)] //@w
+    #[verifier::rlimit(800)] //@w
     fn add_text(
         &mut self,
         text: &str,
